@@ -268,7 +268,23 @@ def native_sample(rp, scen, seed, n=6000):
     names = code_names()
     for k in range(n):
         ln = 64
-        mode = k % 4
+        mode = k % 6
+        if mode >= 4:
+            # decoder-state layout [len, offset, limit tag, limit (8 bytes LE), arg, buffer...] with a SMALL limit (0..4) or none
+            blen = rnd.randrange(13)
+            off_ = 4 * rnd.randrange(blen // 4 + 1)
+            tag = rnd.randrange(2)
+            lim = [rnd.randrange(5)] + [0] * 7 if mode == 4 else [rnd.choice((0, 1, 2, 0xff)) for _ in range(8)]
+            raw = bytes([blen, off_, tag] + lim + [rnd.randrange(256)] + [rnd.choice((0, 0, 1, 0x41, 0x80, 0xff)) if rnd.random() < 0.6 else rnd.randrange(256) for _ in range(ln - 12)])
+            real = rp.ask("scenario %s %s" % (scen, raw.hex()))
+            code = real.get("code")
+            if "panic" in real:
+                return raw, real, "%s/panic/%s" % (scen, normalise_panic(real["panic"], real.get("at", ""))), "%s panics on input %s: %s (%s)" % (scen, raw.hex(), real["panic"], real.get("at"))
+            if code is not None and code >= 100:
+                return raw, real, "%s/%s" % (scen, names.get(code, "code%d" % code)), "%s violates %s on input %s" % (scen, names.get(code, code), raw.hex())
+            if "error" in real:
+                return None
+            continue
         if mode == 0:
             raw = bytes(rnd.choice((0, 1, 2, 3, 4, 5, 6, 8, 12, 0x7f, 0x80, 0xff)) if rnd.random() < 0.7 else rnd.randrange(256) for _ in range(ln))
         elif mode == 1:
